@@ -91,6 +91,9 @@ func c05Reference(sc *c13Scenario) (lines []string, states []string, v *Violatio
 	}
 	pos := len(conn.Written())
 	for _, e := range sc.Events {
+		if e.Kind == "reconnect" {
+			continue // C13's subject; C05 sessions stay on one connection
+		}
 		ls := applyNetEvent(n, e)
 		if len(ls) == 0 {
 			continue
